@@ -24,15 +24,18 @@ Print Assumptions C10_noninterference_generic.
    the one Mp4/TraceSpec.v allows (the monitor never refuses) *)
 Theorem C10_reads_confined : forall (cfg : config) (fuel : nat) (inp : input) (lenient : bool) (max_seek : N),
   let B := N.max (max_metadata_size cfg) 1024 in
-  all_steps (mp4_mstep B) (cursor inp lenient max_seek) (read_confined B) (sanitize_prog cfg fuel) 0 MHead.
+  let F := 2 * (max_metadata_size cfg + 1024 + 64) in
+  all_steps (mp4_mstep B F) (cursor inp lenient max_seek) (read_confined B) (sanitize_prog cfg fuel) 0 MHead.
 Proof. exact reads_confined. Qed.
 Print Assumptions C10_reads_confined.
 
 (* every allocation event is at most max(max_metadata_size, 1024) bytes and is issued after the limit check (the monitor
-   allows an allocation only where a payload is about to be read), except the final allocation of the output *)
+   allows an allocation only where a payload is about to be read); the final allocation of the output is at most
+   2 * (max_metadata_size + 1024 + 64) bytes *)
 Theorem C10_mp4_alloc_bounded : forall (cfg : config) (fuel : nat) (inp : input) (lenient : bool) (max_seek : N),
   let B := N.max (max_metadata_size cfg) 1024 in
-  all_steps (mp4_mstep B) (cursor inp lenient max_seek) (alloc_bounded B) (sanitize_prog cfg fuel) 0 MHead.
+  let F := 2 * (max_metadata_size cfg + 1024 + 64) in
+  all_steps (mp4_mstep B F) (cursor inp lenient max_seek) (alloc_bounded B F) (sanitize_prog cfg fuel) 0 MHead.
 Proof. exact allocs_bounded. Qed.
 Print Assumptions C10_mp4_alloc_bounded.
 
@@ -47,20 +50,11 @@ Theorem C10_media_noninterference : forall (cfg : config) (fuel : nat) (i1 i2 : 
 Proof. exact media_noninterference. Qed.
 Print Assumptions C10_media_noninterference.
 
-(* finding D6: the returned metadata is NOT bounded by a multiple of the limit: the padding box is as large as the gap
-   before the media (witness: limit 4096, a free box of 2^20 bytes before mdat, moov last => 1 MiB of metadata) *)
-Theorem C10_metadata_size_refuted :
-  exists (cfg : config) (inp : input) (fuel : nat) (md : bytes) (z : N) (sp : span),
-    mp4_sanitize cfg true 18446744073709551615 inp fuel = Ok {| o_metadata := Some (md, z); o_data := sp |} /\
-    2 * (max_metadata_size cfg + 1024 + 64) < N.of_nat (length md) + z.
-Proof. exact metadata_size_refuted. Qed.
-Print Assumptions C10_metadata_size_refuted.
-
-(* ... on the complement of D6: everything except the zero filling of the padding box (ftyp and moov with their new
-   headers, the 8-byte header of the padding box) is bounded *)
-Theorem C10_metadata_nonpad_bounded : forall (cfg : config) (fuel : nat) (inp : input) (lenient : bool) (max_seek : N)
-                                             (md : bytes) (z : N) (sp : span),
+(* the returned metadata, padding included, is bounded (former finding D6, repaired in /repo by 3c176e3: the padding
+   box is no larger than the metadata it follows) *)
+Theorem C10_metadata_size_bounded : forall (cfg : config) (fuel : nat) (inp : input) (lenient : bool) (max_seek : N)
+                                           (md : bytes) (z : N) (sp : span),
   mp4_sanitize cfg lenient max_seek inp fuel = Ok {| o_metadata := Some (md, z); o_data := sp |} ->
-  N.of_nat (length md) <= max_metadata_size cfg + 1024 + 64.
-Proof. exact (fun cfg fuel inp lenient ms md z sp H => metadata_nonpad_bounded cfg fuel inp lenient ms _ H). Qed.
-Print Assumptions C10_metadata_nonpad_bounded.
+  N.of_nat (length md) + z <= 2 * (max_metadata_size cfg + 1024 + 64).
+Proof. exact metadata_size_bounded. Qed.
+Print Assumptions C10_metadata_size_bounded.
